@@ -816,6 +816,75 @@ def rule_prefix(ctx):
     return res.finish(2)
 
 
+def rule_countindex(ctx):
+    """cluster_count[c] is the number of training points whose membership *is c*: what indexes the counter is a membership
+    value, never the position of a run in the sorted memberships (an empty cluster shifts every later count down)."""
+    res = RuleResult("R-C09-countindex", "the per-cluster counts of KMeans::fit are indexed by membership values, not by enumeration positions")
+    F = ctx.facts()
+    fns = [f for f in kmeans_fns(F) if f["d"]["name"] == "fit" and (f["d"].get("self_adt") or "").endswith("KMeansValidParams")]
+    if not fns:
+        res.missing_anchor("<KMeansValidParams as Fit>::fit")
+    for fn in fns:
+        c = fn["crate"]
+        r = Render(c)
+        key = fn_key(fn)
+        res.instance(key)
+        positions = set()
+        for y in walk(fn["body"]):
+            pats = []
+            if y.get("k") == "Closure":
+                pats = y["params"]
+            for p_ in pats:
+                q = p_
+                while q.get("k") == "Ref":
+                    q = q["pat"]
+                if q.get("k") == "Tuple" and len(q["pats"]) == 2:
+                    # is this pattern fed by an `.enumerate()`?  (checked at the use site below: cheap over-approximation by name of the adaptor in the function)
+                    positions |= {b["local"] for b in pat_bindings(q["pats"][0])}
+        from .c17 import for_loops as _fl
+        for it_, pat_, body_, node_ in _fl(fn["body"]):
+            q = pat_
+            while q.get("k") == "Ref":
+                q = q["pat"]
+            if q.get("k") == "Tuple" and len(q["pats"]) == 2 and any(z.get("k") == "MethodCall" and z["name"] == "enumerate" for z in walk(it_)):
+                positions |= {b["local"] for b in pat_bindings(q["pats"][0])}
+        has_enum = any(y.get("k") == "MethodCall" and y["name"] == "enumerate" for y in walk(fn["body"]))
+        bad = None
+        for y in walk(fn["body"]):
+            if y.get("k") in ("Assign", "AssignOp"):
+                l0 = peel_refs(y["l"])
+                if l0.get("k") == "Index" and peel_refs(l0["e"]).get("name") == "cluster_count":
+                    ix = peel_refs(l0["i"])
+                    if has_enum and ix.get("k") == "Path" and ix.get("local") in positions:
+                        bad = y
+        if bad is not None:
+            res.violate("%s : count-indexed-by-position" % key, "`%s`: the counter is indexed by the position of an item in an enumeration, not by a membership value - with an empty cluster the counts of all later clusters move down by one and no longer describe the returned centroids" % r.e(bad)[:50], fn_loc(fn, bad.get("ln")))
+        else:
+            res.ok()
+    return res.finish(1)
+
+
+def rule_fillall(ctx):
+    """The assignment helpers write one entry per observation into a buffer they are handed; what the buffer held before is
+    the caller's business (`predict_inplace` passes a caller-owned array).  A return before the write loop - a "single centroid,
+    nothing to compute" shortcut that relies on the buffer being zeroed - leaves stale labels behind."""
+    from .c17 import explicit_exits
+    res = RuleResult("R-C09-fillall", "update_cluster_memberships / update_min_dists / update_memberships_and_dists have no return before their write loop")
+    F = ctx.facts()
+    fns = [f for f in kmeans_fns(F) if f["d"]["name"] in ("update_cluster_memberships", "update_min_dists", "update_memberships_and_dists")]
+    if len(fns) < 3:
+        res.missing_anchor("the three assignment helpers (found %d)" % len(fns))
+    for fn in fns:
+        key = fn_key(fn)
+        res.instance(key)
+        exits = [y for y in explicit_exits(fn["body"], fn["crate"]) if y.get("k") == "Ret"]
+        if exits:
+            res.violate("%s : output-left-unwritten" % key, "the helper returns before its write loop on some path: the caller's buffer keeps what it held (stale labels of an earlier model, say)", fn_loc(fn, exits[0].get("ln")))
+        else:
+            res.ok()
+    return res.finish(3)
+
+
 def rule_restartstate(ctx):
     """Every restart of `fit` is a fresh run: what a restart's iteration loop tests is set up inside the restart.  A flag
     declared before the restart loop, assigned only inside the iteration loop and never reset at the top of a restart is
@@ -916,7 +985,9 @@ def _blockmean_rule():
 def rules(tier):
     from . import carry, c04
     from . import precision
-    return [rule_restartstate, rule_initdispatch, _blockmean_rule(), rule_argmin, rule_best, rule_fresh, rule_init, rule_memorder, rule_incumbent, c07.rule_degree, rule_scanexit, rule_counts,
+    from . import intnarrow
+    return [intnarrow.make_rule("R-C09-narrow", lambda f: f["d"]["krate"] == "linfa_clustering" and "k_means" in f["d"]["path"] + " " + fn_file(f), "linfa-clustering k_means"),
+            rule_countindex, rule_fillall, rule_restartstate, rule_initdispatch, _blockmean_rule(), rule_argmin, rule_best, rule_fresh, rule_init, rule_memorder, rule_incumbent, c07.rule_degree, rule_scanexit, rule_counts,
             carry.make_clone_rule("R-C09-clone", {"linfa_clustering"}, 10), carry.make_setter_rule("R-C09-override", {"linfa_clustering"}, 10), c04.make_carry_rule("R-C09-carry", {"KMeansParams"}, 4),
             precision.make_rule("R-C09-precision", lambda f: f["d"]["krate"] == "linfa_clustering" and any(x in f["d"]["path"] + " " + (f["d"].get("self_adt") or "") for x in ("k_means", "KMeans")), 30, "linfa-clustering k_means"),
             carry.make_accessor_rule("R-C09-accessor", {"linfa_clustering"}, 10), carry.make_ctor_rule("R-C09-ctor", {"linfa_clustering"}, 4), rule_prefix]
